@@ -188,6 +188,50 @@ func genC04(e *emitter, tier string) {
 			}
 		}
 	}
+	// operands next to the ends of the float32 range, non-square shapes (K < N, K > N, M = 1), alpha / beta far
+	// from 1: the result alpha*(A*B) + beta*C is representable although alpha*A, A*B or (A*B)+C evaluated in
+	// another order is not (judged by the float64 reference and the bound of Theorems/C04b)
+	for _, g := range []struct {
+		al, be  float64
+		m, k, n int
+		a, b, c []float64
+	}{
+		{2, 1, 2, 2, 3, []float64{2e38, 1e38, -1.5e38, 3e37}, []float64{0.1, 0.2, 0.3, 0.4, 0.05, 0.25}, []float64{1, 2, 3}},
+		{0.5, 1, 1, 2, 3, []float64{3e38, -3e38}, []float64{1, 0.5, 0.25, 0.5, 1, 0.125}, []float64{1e37, 0, -1e37}},
+		{1e-3, 1, 2, 2, 3, []float64{1e-36, 2e-36, 3e-36, 5e-37}, []float64{1e3, 2e3, 3e3, 4e3, 5e3, 6e3}, nil},
+		{1e3, 1, 2, 2, 3, []float64{1e-40, 2e-41, 3e-39, 5e-42}, []float64{1e3, 2e3, 3e3, 4e3, 5e3, 6e3}, nil},
+		{4, 0.25, 2, 3, 2, []float64{8e37, 1, 2, -8e37, 3, 4}, []float64{1, 0.5, 0.25, 2, 1, 0.125}, []float64{-3e38, 3e38}},
+		{-2, 3, 3, 1, 2, []float64{1.6e38, -1e38, 5}, []float64{0.5, 1}, []float64{1e38, 1e38}},
+		{0.1, 10, 2, 3, 4, []float64{1.5, -2.25, 3.125, 0.1, 0.2, 0.3}, []float64{0.7, -0.6, 0.5, 0.9, 1.1, -1.2, 1.3, 0.01, 100, 1000, 1e4, 1e5}, []float64{0.001, 0.002, 0.003, 0.004}},
+	} {
+		attrs := []Attr{{Name: "alpha", Type: "f", F: g.al}, {Name: "beta", Type: "f", F: g.be}}
+		ins := []*TJ{fT("f32", []int{g.m, g.k}, g.a), fT("f32", []int{g.k, g.n}, g.b)}
+		if g.c != nil {
+			ins = append(ins, fT("f32", []int{g.n}, g.c))
+		}
+		e.emit(opCase("gemm-extreme", "Gemm", attrs, ins, nil))
+		// transposed storage of the same operands
+		at := make([]float64, len(g.a))
+		for i := 0; i < g.m; i++ {
+			for l := 0; l < g.k; l++ {
+				at[l*g.m+i] = g.a[i*g.k+l]
+			}
+		}
+		insT := append([]*TJ{fT("f32", []int{g.k, g.m}, at)}, ins[1:]...)
+		e.emit(opCase("gemm-extreme", "Gemm", append([]Attr{{Name: "transA", Type: "i", I: 1}}, attrs...), insT, nil))
+	}
+	// Scaler on fractional float32 data: features next to their offset (the difference is exact, the product
+	// rounds once), huge features and offsets whose difference is small, scales that are not powers of two
+	for _, g := range []struct{ x, off, sc []float64 }{
+		{[]float64{1e8, 99999992, 1.5, -2.75}, []float64{99999992, 1e8, 1.25, -2.5}, []float64{0.1, 0.3, 7, 1e-3}},
+		{[]float64{3e38, -3e38, 1e-38, 0.1}, []float64{3e38, -2.9e38, 2e-38, 0.3}, []float64{2, 3, 1e10, 1e30}},
+		{[]float64{16777216, 16777215, 0.3, 1e-20}, []float64{16777215, 16777216, 0.1, 3e-20}, []float64{0.7, 0.7, 1.1, 1e25}},
+	} {
+		attrs := []Attr{{Name: "offset", Type: "floats", Fs: g.off}, {Name: "scale", Type: "floats", Fs: g.sc}}
+		e.emit(opCase("scaler-float", "Scaler", attrs, []*TJ{fT("f32", []int{4}, g.x)}, nil))
+		e.emit(opCase("scaler-float", "Scaler", attrs, []*TJ{fT("f32", []int{2, 4}, append(append([]float64{}, g.x...), g.off...))}, nil))
+		e.emit(opCase("scaler-float", "Scaler", []Attr{{Name: "offset", Type: "floats", Fs: g.off[:1]}, {Name: "scale", Type: "floats", Fs: g.sc[:1]}}, []*TJ{fT("f32", []int{4}, g.x)}, nil))
+	}
 	// the same tensor object at two input positions (a node listing one name twice: Gram matrices, X·X)
 	for _, s := range [][]int{{2, 2}, {3, 3}, {2, 3}, {1, 2}} {
 		x := smallT("f32", s, 5)
